@@ -32,6 +32,8 @@ class Gen:
         self.s, self.r = schema, rng
         self.max_str, self.max_elems, self.opt_pct = max_str, max_elems, opt_pct
         self.negative_ints = negative_ints
+        self.force = set()          # field numbers always included (at any nesting level; groups get >= 1 element)
+        self.override = {}          # field number -> bytes value to use
         self.data_after = {}     # length num -> data num
         self.data_nums = set()
         for _, sect in schema.all_sections():
@@ -91,9 +93,9 @@ class Gen:
             nd = r.randint(0, 2)
             frac = r.randint(0, 10 ** nd - 1) if nd else 0
             neg = '-' if (r.random() < 0.3 and (whole or frac)) else ''
-            if nd:
-                return ('%s%d.%0*d' % (neg, whole, nd, frac)).encode()
-            return ('%s%d' % (neg, whole)).encode()
+            # canonical text of the encoder at the default precision 2: trailing zeros trimmed, at least one fraction digit
+            fs = (('%0*d' % (nd, frac)).rstrip('0') if nd else '') or '0'
+            return ('%s%d.%s' % (neg, whole, fs)).encode()
         if t == 'UTCTIMESTAMP':
             y, m, d = self.date()
             return ('%04d%02d%02d-%02d:%02d:%02d.%03d' % (y, m, d, r.randrange(24), r.randrange(60), r.randrange(60), r.randrange(1000))).encode()
@@ -128,11 +130,11 @@ class Gen:
                 continue
             if idx > 0 and self.data_after.get(members[idx - 1].num) == m.num:
                 continue    # a data field is emitted together with its length field
-            take = m.required or r.randrange(100) < self.opt_pct or bool(force and m.num in force)
+            take = m.required or r.randrange(100) < self.opt_pct or bool(force and m.num in force) or m.num in self.force
             nxt = members[idx + 1] if idx + 1 < len(members) else None
             if nxt is not None and self.data_after.get(m.num) == nxt.num:
-                if take or nxt.required:
-                    data = self.value(nxt.field)
+                if take or nxt.required or nxt.num in self.force:
+                    data = self.override.get(nxt.num) or self.value(nxt.field)
                     out.append(Item(m.num, str(len(data)).encode()))
                     out.append(Item(nxt.num, data))
                 continue
@@ -140,12 +142,12 @@ class Gen:
                 continue
             if m.group:
                 cnt = r.choice([0, 1, 1, 2, 2, self.max_elems]) if depth < 3 else r.choice([0, 1])
-                if m.required and cnt == 0:
+                if (m.required or m.num in self.force) and cnt == 0:
                     cnt = 1
                 elems = [self.element(m.group, depth + 1) for _ in range(cnt)]
                 out.append(Item(m.num, str(cnt).encode(), elems))
             else:
-                out.append(Item(m.num, self.value(f)))
+                out.append(Item(m.num, self.override.get(m.num) or self.value(f)))
         return out
 
     def element(self, gsect, depth):
